@@ -7,28 +7,51 @@ ladim_plugins.release` gives identical tables; seeded repeated runs are identica
 table; missing-key configurations are rejected with an error naming exactly what is missing.
 Correspondence: `load_config` validation against the Lean `Table.validate` for every missing-key
 combination; container normalisation through the table model (shared with C01)."""
-import importlib, io, os, sys, tempfile, shutil, subprocess, itertools, re
+import importlib, io, os, sys, tempfile, shutil, subprocess, itertools, re, copy, datetime
 import numpy as np
 from .common import Driver, I, RngRecorder
 from . import relgen, c01
 
-RULE = ("YAML-serialisable configurations: 1..4 groups, all location forms except file streams for the CLI, attribute forms "
-        "const / list / range / gaussian / exponential / piecewise, seeds; five ways of supplying the config; all 2^3-1 "
-        "missing-key combinations over 1..3 groups in the three containers. Non-trivial: every configuration.")
-ASSUMPTIONS = ["yaml.safe_load / pandas.to_csv / the CLI are exercised, not modelled"]
+RULE = ("YAML-serialisable configurations: 1..4 groups, num in {0,1,2,3,7,40}, all location forms (GeoJSON as the name of a "
+        "file), attribute forms const / list / range / gaussian / exponential / piecewise / dotted function name, a "
+        "non-ASCII attribute name, with and without `columns` (random non-empty subset of the table's columns, shuffled); "
+        "seeds 0, 1, 2^32-1, [1, 2] and random; the grouped, flat and list documents each as mapping, YAML stream, YAML file "
+        "(ASCII-escaped and UTF-8), re-used config path; dates also as YAML-native timestamps (datetime / date objects); "
+        "output path absent / holding stale content / written twice / an open handle; command line: two-argument form for "
+        "grouped and flat documents, console script under the C locale, one-argument (print) form, invalid file; all "
+        "2^3-1 missing-key combinations over 1..3 groups in the three containers, each also as a YAML stream, always with "
+        "an output path; malformed dates, non-mapping documents and malformed YAML. Non-trivial: every configuration.")
+ASSUMPTIONS = ["yaml.safe_load / pandas.to_csv / the CLI are exercised, not modelled",
+               "the one-argument command line prints pandas' default rendering of the table: it is compared for tables of "
+               "four columns and at most 50 rows (no truncation, no wrapping), numbers at the display precision of 6 digits"]
 SITE = "ladim_plugins/release/makrel.py"
+MAIN = "ladim_plugins/release/__main__.py"
+SPECIAL_SEEDS = [0, 2**32 - 1, [1, 2], 1]
+NUMS = [0, 1, 2, 3, 7, 40]
 
 
-def plain_config(rng):
-    import yaml
+def plain_config(rng, tmp=None, tag="", all_zero=False):
+    """groups that survive a YAML round trip; a GeoJSON location is given as the name of a file in `tmp`"""
     ng = rng.randrange(1, 5)
     groups = []
+    files = {}
     for g in range(ng):
-        form, conf = relgen.gen_group(rng, g, yamlable=True, force_num=rng.choice([1, 2, 3, 7]))
-        while form == "geojson":
+        form, conf = relgen.gen_group(rng, g, yamlable=True, force_num=0 if all_zero else rng.choice(NUMS))
+        while form == "geojson" and tmp is None:
             form, conf = relgen.gen_group(rng, g, yamlable=True, force_num=conf["num"])
+        if form == "geojson":
+            path = os.path.join(tmp, "area_%s_%d.geojson" % (tag, g))
+            with open(path, "w", encoding="utf-8") as f:
+                f.write(conf["location"])
+            files[path] = conf["location"]
+            conf["location"] = path
+        # YAML-able forms the shared generator leaves out: a function given by its dotted name, a non-ASCII name
+        if rng.random() < 0.15:
+            conf["seq"] = "numpy.arange"
+        if rng.random() < 0.25:
+            conf["størrelse"] = rng.choice([3, 2.5])
         groups.append(conf)
-    return groups
+    return groups, files
 
 
 def tables_equal(a, b):
@@ -44,27 +67,155 @@ def tables_equal(a, b):
     return True, ""
 
 
+def types_equal(a, b):
+    """identical tables hold cells of the same type (1, 1.0 and True are equal but not identical)"""
+    for k in a:
+        if k not in b or len(a[k]) != len(b[k]):
+            continue            # reported by tables_equal
+        for x, y in zip(a[k], b[k]):
+            if type(x) is not type(y):
+                return False, "column %s: %r is %s, %r is %s" % (k, x, type(x).__name__, y, type(y).__name__)
+    return True, ""
+
+
+def nrows_of(t):
+    return len(next(iter(t.values()))) if t else 0
+
+
+def native_dates(rng, conf):
+    """the same configuration with the date strings as the objects an unquoted YAML timestamp loads to"""
+    out = copy.deepcopy(conf)
+    changed = [False]
+
+    def one(s):
+        if not isinstance(s, str):
+            return s
+        try:
+            d = datetime.datetime.fromisoformat(s)
+        except ValueError:
+            return s
+        changed[0] = True
+        if d.time() == datetime.time(0) and (len(s) <= 10 or rng.random() < 0.5):
+            return d.date()
+        return d
+    for g in out["groups"]:
+        g["date"] = [one(s) for s in g["date"]] if isinstance(g["date"], list) else one(g["date"])
+    return out if changed[0] else None
+
+
+class Cli:
+    """command-line runs are started in the background (process start-up is slow) and judged later"""
+
+    def __init__(self, limit=4):
+        self.pending = []
+        self.limit = limit
+
+    def launch(self, args, then, env=None, cwd=None):
+        p = subprocess.Popen(args, stdout=subprocess.PIPE, stderr=subprocess.PIPE, env=env, cwd=cwd)
+        self.pending.append((p, then))
+        while len(self.pending) > self.limit:
+            self._finish(self.pending.pop(0))
+
+    def _finish(self, item):
+        p, then = item
+        out, err = p.communicate()
+        then(p.returncode, out.decode("utf-8", "replace"), err.decode("utf-8", "replace"))
+
+    def drain(self):
+        while self.pending:
+            self._finish(self.pending.pop(0))
+
+
+def named_keys(text, keys):
+    return set(k for k in keys if k in text)
+
+
+def judge_missing(ctx, err, combo, keys, site, cs):
+    """the error names what is missing: every missing key, and no necessary key that is present"""
+    ng = len(combo)
+    missing = [set(k for i, k in enumerate(keys) if (m >> i) & 1) for m in combo]
+    for gi, m in enumerate(combo):
+        for i, k in enumerate(keys):
+            if (m >> i) & 1:
+                ctx.oracle(k in err, "C18.invalid.error_does_not_name_key", site,
+                           "group %d lacks %s, error is %r" % (gi, k, err), cs)
+    allmissing = set().union(*missing)
+    ctx.oracle(named_keys(err, keys) <= allmissing, "C18.invalid.error_names_other_key", site,
+               "error %r names %r, but only %r are missing" % (err, sorted(named_keys(err, keys) - allmissing), sorted(allmissing)), cs)
+    if ng > 1:
+        for gi, m in enumerate(combo):
+            ctx.oracle((("in group %d" % gi) in err) == (m != 0), "C18.invalid.error_group_index", site,
+                       "error %r, missing masks %r" % (err, combo), cs)
+        # per group: the text that leads up to "in group i" names exactly the keys group i lacks
+        pieces = re.split(r"in group (\d+)", err)
+        for seg, idx in zip(pieces[0::2], pieces[1::2]):
+            gi = int(idx)
+            if gi < ng:
+                ctx.oracle(named_keys(seg, keys) == missing[gi], "C18.invalid.error_names_other_key", site,
+                           "error %r says group %d lacks %r, it lacks %r" % (err, gi, sorted(named_keys(seg, keys)), sorted(missing[gi])), cs)
+
+
 def run(ctx):
     import yaml
     mk = importlib.import_module("ladim_plugins.release.makrel")
     tmp = tempfile.mkdtemp(prefix="verif_c18_")
+    cli = Cli()
+    exe_dir = os.path.dirname(sys.executable)
+    script = os.path.join(exe_dir, "makrel")
+    c_env = dict(os.environ, LC_ALL="C", LANG="C", PYTHONCOERCECLOCALE="0", PYTHONUTF8="0")
+    n_flat_cli = n_print = n_locale = 0
+
+    def cli_file_check(path, want, pred, site, what, case):
+        def then(rc, out, err):
+            got = None
+            if os.path.exists(path):
+                with open(path, encoding="utf8") as f:
+                    got = f.read()
+            ctx.oracle(rc == 0 and got == want, pred, site,
+                       "%s output differs from make_release (rc=%d, %s)" % (what, rc, err[-200:]), case)
+        return then
     try:
         for c in range(ctx.n(40, 600)):
-            groups = plain_config(ctx.rng)
-            seed = ctx.rng.randrange(10000)
+            # cases 6 and 7: an empty table (every num = 0) written to an absent path / over stale content
+            groups, files = plain_config(ctx.rng, tmp, str(c), all_zero=c in (6, 7))
+            if c < len(SPECIAL_SEEDS):
+                seed = SPECIAL_SEEDS[c]
+            elif ctx.rng.random() < 0.1:
+                seed = ctx.rng.choice(SPECIAL_SEEDS)
+            else:
+                seed = ctx.rng.randrange(10000)
             cols = None
-            conf = dict(seed=seed, groups=groups)
+            if ctx.rng.random() < 0.5:
+                hdr0 = list(mk.make_release(dict(seed=1, groups=copy.deepcopy(groups))).keys())
+                cols = ctx.rng.sample(hdr0, ctx.rng.randrange(1, len(hdr0) + 1))
+            conf = dict(seed=seed)
+            if cols is not None:
+                conf["columns"] = cols
+            conf["groups"] = groups
+
+            def make_flat():
+                f_ = dict(copy.deepcopy(groups[0]), seed=copy.deepcopy(seed))
+                if cols is not None:
+                    f_["columns"] = list(cols)
+                return f_
             cs = dict(config=conf)
+            if files:
+                cs["geojson_files"] = files
             ctx.case(key=repr(conf), nontrivial=True, sample=dict(ngroups=len(groups), seed=seed) if c < 2 else None)
             ctx.branch("containers")
+            ctx.branch("columns" if cols is not None else "default_columns")
+            ctx.branch("seed.zero" if seed == 0 else "seed.max" if seed == 2**32 - 1 else "seed.list" if isinstance(seed, list) else "seed.other")
+            if files: ctx.branch("location.geojson_file")
+            if any(g["num"] == 0 for g in groups): ctx.branch("num.zero")
+            if all(g["num"] == 0 for g in groups): ctx.branch("num.all_zero")
             ref = mk.make_release(dict(conf))
             again = mk.make_release(dict(conf))
             ok, msg = tables_equal(ref, again)
             ctx.oracle(ok, "C18.seed.not_reproducible", SITE + "::make_release", "two seeded runs differ: " + msg, cs)
+            nrows = nrows_of(ref)
             # the same specification *object* supplied repeatedly (a caller looping over one config)
-            import copy
             for label, obj in (("grouped", copy.deepcopy(conf)),
-                               ("flat", dict(copy.deepcopy(groups[0]), seed=seed) if len(groups) == 1 else None)):
+                               ("flat", make_flat() if len(groups) == 1 else None)):
                 if obj is None:
                     continue
                 runs = [mk.make_release(obj) for _ in range(3)]
@@ -72,21 +223,56 @@ def run(ctx):
                     ok, msg = tables_equal(ref, r_)
                     ctx.oracle(ok, "C18.seed.same_object_not_reproducible", SITE + "::make_release",
                                "call %d with the same %s mapping object differs from the first seeded run: %s" % (k + 1, label, msg), cs)
-            text = yaml.safe_dump(conf, sort_keys=False)
+            unicode_yaml = bool(c % 2)
+            if unicode_yaml: ctx.branch("yaml.utf8")
+            text = yaml.safe_dump(conf, sort_keys=False, allow_unicode=unicode_yaml)
             via_stream = mk.make_release(io.StringIO(text))
             ok, msg = tables_equal(ref, via_stream)
             ctx.oracle(ok, "C18.container.yaml_stream_differs", SITE + "::load_config", msg, cs)
-            fn = os.path.join(tmp, "conf%d.yaml" % c)
+            if ok:
+                ok, msg = types_equal(ref, via_stream)
+                ctx.oracle(ok, "C18.container.cell_type_differs", SITE + "::load_config", "YAML stream: " + msg, cs)
+            # one config path for every case: the file's content of the moment counts, not its name
+            fn = os.path.join(tmp, "conf.yaml")
             with open(fn, "w", encoding="utf8") as f:
                 f.write(text)
-            out_fn = os.path.join(tmp, "out%d.rls" % c)
+            # the output path does not exist / holds stale content / holds the previous case's table
+            out_fn = os.path.join(tmp, "out.rls")
+            if c % 3 == 0:
+                if os.path.exists(out_fn): os.remove(out_fn)
+                ctx.branch("file.absent")
+            elif c % 3 == 1:
+                with open(out_fn, "w", encoding="utf8") as f:
+                    f.write("stale\tcontent\tof\tan\tearlier\trun\n" * 5)
+                ctx.branch("file.stale_content")
+            else:
+                ctx.branch("file.previous_table")
             via_file = mk.make_release(fn, out_fn)
             ok, msg = tables_equal(ref, via_file)
             ctx.oracle(ok, "C18.container.yaml_file_differs", SITE + "::load_config", msg, cs)
+            if ok:
+                ok, msg = types_equal(ref, via_file)
+                ctx.oracle(ok, "C18.container.cell_type_differs", SITE + "::load_config", "YAML file: " + msg, cs)
             if len(groups) == 1:
-                flat = dict(groups[0]); flat["seed"] = seed
-                ok, msg = tables_equal(ref, mk.make_release(flat))
+                ctx.branch("flat")
+                flat = make_flat()
+                via_flat = mk.make_release(flat)
+                ok, msg = tables_equal(ref, via_flat)
                 ctx.oracle(ok, "C18.container.flat_differs", SITE + "::load_config", msg, cs)
+                if ok:
+                    ok, msg = types_equal(ref, via_flat)
+                    ctx.oracle(ok, "C18.container.cell_type_differs", SITE + "::load_config", "flat mapping: " + msg, cs)
+                # the flat document (seed and columns inline) as YAML stream and file
+                ftext = yaml.safe_dump(make_flat(), sort_keys=False, allow_unicode=unicode_yaml)
+                fcs = dict(cs, flat_yaml=ftext)
+                ok, msg = tables_equal(ref, mk.make_release(io.StringIO(ftext)))
+                ctx.oracle(ok, "C18.container.flat_yaml_stream_differs", SITE + "::load_config", msg, fcs)
+                ffn = os.path.join(tmp, "flat.yaml")
+                with open(ffn, "w", encoding="utf8") as f:
+                    f.write(ftext)
+                ok, msg = tables_equal(ref, mk.make_release(ffn))
+                ctx.oracle(ok, "C18.container.flat_yaml_file_differs", SITE + "::load_config", msg, fcs)
+                ctx.branch("flat_yaml")
             # list container has no seed: compare under the same recorder stream instead
             s2 = ctx.sub_seed()
             with RngRecorder(s2):
@@ -95,12 +281,62 @@ def run(ctx):
                 b = mk.make_release(dict(groups=[dict(g) for g in groups]))
             ok, msg = tables_equal(a, b)
             ctx.oracle(ok, "C18.container.list_differs", SITE + "::load_config", msg, cs)
+            # ... the same list object again and again, and the list document as YAML stream and file
+            lst = copy.deepcopy(groups)
+            for k in range(2):
+                with RngRecorder(s2):
+                    r_ = mk.make_release(lst)
+                ok, msg = tables_equal(a, r_)
+                ctx.oracle(ok, "C18.container.list_same_object_differs", SITE + "::load_config",
+                           "call %d with the same list object (same draw stream): %s" % (k + 1, msg), cs)
+            ltext = yaml.safe_dump(copy.deepcopy(groups), sort_keys=False, allow_unicode=unicode_yaml)
+            lcs = dict(cs, list_yaml=ltext, draw_seed=s2)
+            if c % 2 == 0:          # (stream and file alternate: keeps the quick tier fast)
+                with RngRecorder(s2):
+                    r_ = mk.make_release(io.StringIO(ltext))
+                ok, msg = tables_equal(a, r_)
+                ctx.oracle(ok, "C18.container.list_yaml_stream_differs", SITE + "::load_config", msg, lcs)
+                ctx.branch("list_yaml.stream")
+            else:
+                lfn = os.path.join(tmp, "list.yaml")
+                with open(lfn, "w", encoding="utf8") as f:
+                    f.write(ltext)
+                with RngRecorder(s2):
+                    r_ = mk.make_release(lfn)
+                ok, msg = tables_equal(a, r_)
+                ctx.oracle(ok, "C18.container.list_yaml_file_differs", SITE + "::load_config", msg, lcs)
+                ctx.branch("list_yaml.file")
+            # dates as YAML-native timestamps (unquoted in the file): mapping with the objects against its YAML forms
+            nat = native_dates(ctx.rng, conf) if c % 2 == 0 else None
+            if nat is not None:
+                ctx.branch("native_dates")
+                ntext = yaml.safe_dump(nat, sort_keys=False, allow_unicode=unicode_yaml)
+                ncs = dict(config=nat, yaml=ntext)
+                nref = mk.make_release(copy.deepcopy(nat))
+                ok, msg = tables_equal(nref, mk.make_release(io.StringIO(ntext)))
+                ctx.oracle(ok, "C18.container.native_dates_yaml_stream_differs", SITE + "::load_config", msg, ncs)
+                nfn = os.path.join(tmp, "native.yaml")
+                with open(nfn, "w", encoding="utf8") as f:
+                    f.write(ntext)
+                ok, msg = tables_equal(nref, mk.make_release(nfn))
+                ctx.oracle(ok, "C18.container.native_dates_yaml_file_differs", SITE + "::load_config", msg, ncs)
             # file round trip
+            written = os.path.exists(out_fn)
+            ctx.oracle(written, "C18.file.not_written", SITE + "::make_release", "an output path was given but no file exists after the call (%d rows)" % nrows, cs)
+            if not written:
+                continue
+            with open(out_fn, encoding="utf8") as f:
+                file_text = f.read()
+            raw = file_text.split("\n")
+            if raw and raw[-1] == "":
+                raw.pop()
+            ctx.oracle(len(raw) == nrows, "C18.file.line_count", SITE + "::make_release",
+                       "file has %d lines (blank ones included) for %d rows" % (len(raw), nrows), cs)
             with open(out_fn, encoding="utf8") as f:
                 lines = [l.rstrip("\n").split("\t") for l in f if l.strip() != ""]
             hdr = list(ref.keys())
-            ok = len(lines) == len(ref["date"]) and all(len(l) == len(hdr) for l in lines)
-            ctx.oracle(ok, "C18.file.shape", SITE + "::make_release", "file has %d lines for %d rows" % (len(lines), len(ref["date"])), cs)
+            ok = len(lines) == nrows and all(len(l) == len(hdr) for l in lines)
+            ctx.oracle(ok, "C18.file.shape", SITE + "::make_release", "file has %d lines for %d rows" % (len(lines), nrows), cs)
             if ok:
                 for j, k in enumerate(hdr):
                     for r, l in enumerate(lines):
@@ -116,14 +352,84 @@ def run(ctx):
                                 good = False
                         ctx.oracle(good, "C18.file.round_trip", SITE + "::make_release",
                                    "column %s row %d: file %r, table %r" % (k, r, l[j], v), dict(cs, column=k, row=r))
+            # the same table written again to the same path, and to an open handle
+            mk.make_release(copy.deepcopy(conf), out_fn)
+            with open(out_fn, encoding="utf8") as f:
+                text2 = f.read()
+            ctx.oracle(text2 == file_text, "C18.file.rewrite_differs", SITE + "::make_release",
+                       "writing the same seeded table a second time to the same path leaves %d characters, the first time %d" % (len(text2), len(file_text)), cs)
+            ctx.branch("file.rewrite")
+            if c % 2 == 1:
+                handle = io.StringIO()
+                mk.make_release(copy.deepcopy(conf), handle)
+                ctx.oracle(handle.getvalue().replace("\r\n", "\n") == file_text, "C18.file.handle_differs", SITE + "::make_release",
+                           "the text written to an open handle differs from the file written by name", cs)
+                ctx.branch("file.handle")
             # command line (a sample: process start-up is slow)
+            # (run in the background on files of their own; judged against the file make_release wrote for the same YAML file)
             if c < ctx.n(4, 30):
-                cli_out = os.path.join(tmp, "cli%d.rls" % c)
-                p = subprocess.run([sys.executable, "-m", "ladim_plugins.release", fn, cli_out], stdout=subprocess.PIPE, stderr=subprocess.PIPE)
+                cli_out = os.path.join(tmp, "cli%d.rls" % c); cli_in = os.path.join(tmp, "cli%d.yaml" % c)
+                shutil.copyfile(fn, cli_in)
                 ctx.branch("cli")
-                good = p.returncode == 0 and os.path.exists(cli_out) and open(cli_out).read() == open(out_fn).read()
-                ctx.oracle(good, "C18.container.cli_differs", "ladim_plugins/release/__main__.py",
-                           "command line output differs from make_release (rc=%d, %s)" % (p.returncode, p.stderr.decode()[-200:]), cs)
+                cli.launch([sys.executable, "-m", "ladim_plugins.release", cli_in, cli_out],
+                           cli_file_check(cli_out, file_text, "C18.container.cli_differs", MAIN, "command line", cs))
+            # further command-line forms
+            if len(groups) == 1 and n_flat_cli < ctx.n(1, 8):
+                n_flat_cli += 1; ctx.branch("cli.flat")
+                p_in = os.path.join(tmp, "cliflat%d.yaml" % c); p_out = os.path.join(tmp, "cliflat%d.rls" % c)
+                shutil.copyfile(ffn, p_in)
+                cli.launch([sys.executable, "-m", "ladim_plugins.release", p_in, p_out],
+                           cli_file_check(p_out, file_text, "C18.container.cli_differs", MAIN, "command line, flat YAML document:", fcs))
+            has_unicode = any(ord(ch) > 127 for ch in text)
+            if unicode_yaml and has_unicode and n_locale < ctx.n(1, 6) and os.path.exists(script):
+                # the installed console script (setup.cfg: makrel = ladim_plugins.release.makrel:main), in a process whose
+                # locale encoding is ASCII: the configuration is read as UTF-8 whatever the locale
+                n_locale += 1; ctx.branch("cli.console_script"); ctx.branch("cli.c_locale")
+                p_in = os.path.join(tmp, "cliloc%d.yaml" % c); p_out = os.path.join(tmp, "cliloc%d.rls" % c)
+                shutil.copyfile(fn, p_in)
+                cli.launch([script, p_in, p_out],
+                           cli_file_check(p_out, file_text, "C18.container.cli_differs", SITE + "::main",
+                                          "console script `makrel`, C locale, UTF-8 YAML with non-ASCII text:", cs), env=c_env)
+            if n_print < ctx.n(1, 6) and 1 <= nrows <= 50:
+                # one-argument form: the table is printed.  Four columns, at most 50 rows: pandas neither truncates nor wraps
+                n_print += 1; ctx.branch("cli.print")
+                pconf = dict(conf); pconf["columns"] = ["date", "longitude", "latitude", "depth"]
+                pref = mk.make_release(copy.deepcopy(pconf))
+                p_in = os.path.join(tmp, "cliprint%d.yaml" % c)
+                with open(p_in, "w", encoding="utf8") as f:
+                    f.write(yaml.safe_dump(pconf, sort_keys=False))
+                cwd = os.path.join(tmp, "cwd_print%d" % c)
+                os.mkdir(cwd)
+
+                def then(rc, out, err, pref=pref, cwd=cwd, case=dict(config=pconf, geojson_files=files)):
+                    ctx.oracle(rc == 0, "C18.cli.print_exit_status", SITE + "::main",
+                               "one-argument command line: rc=%d, %s" % (rc, err[-200:]), case)
+                    ctx.oracle(os.listdir(cwd) == [], "C18.cli.print_writes_file", SITE + "::main",
+                               "one-argument command line left files %r in its working directory" % (os.listdir(cwd),), case)
+                    if rc != 0:
+                        return
+                    ls = [l.split() for l in out.split("\n") if l.strip() != ""]
+                    n = nrows_of(pref)
+                    good = len(ls) == n + 1 and ls[0] == list(pref.keys()) and all(len(l) == 5 for l in ls[1:])
+                    detail = "printed %d lines for %d rows" % (len(ls), n)
+                    if good:
+                        for r, l in enumerate(ls[1:]):
+                            if l[1] != pref["date"][r]:
+                                good = False; detail = "row %d: printed date %r, table %r" % (r, l[1], pref["date"][r]); break
+                            for j, k in enumerate(("longitude", "latitude", "depth")):
+                                v = float(pref[k][r])
+                                try:
+                                    w = float(l[2 + j])
+                                except ValueError:
+                                    w = float("nan")
+                                # pandas prints 6 decimals (6 significant digits in scientific notation)
+                                if not (abs(w - v) <= 5.1e-7 or abs(w - v) <= 1e-5 * abs(v)):
+                                    good = False; detail = "row %d %s: printed %r, table %r" % (r, k, l[2 + j], v)
+                            if not good:
+                                break
+                    ctx.oracle(good, "C18.cli.print_differs", SITE + "::main", "one-argument command line: " + detail, case)
+                cli.launch([sys.executable, "-m", "ladim_plugins.release", p_in], then, cwd=cwd)
+        cli.drain()
         # ---- error path
         drv = Driver()
         if getattr(ctx, "widened", False):
@@ -131,6 +437,8 @@ def run(ctx):
         pend = []
         base = dict(date="2000-01-01", location=[5, 60], num=3)
         keys = ["date", "location", "num"]
+        err_out = os.path.join(tmp, "err_out.rls")
+        n_cli_err = 0
         for ng in (1, 2, 3):
             for combo in itertools.product(range(8), repeat=ng):
                 if ng == 3 and ctx.tier != "thorough" and ctx.rng.random() < 0.8:
@@ -140,10 +448,12 @@ def run(ctx):
                     g = {k: v for i, (k, v) in enumerate(base.items()) if not (m >> i) & 1}
                     g["depth"] = 1
                     groups.append(g)
-                for container in (["flat", "list", "grouped"] if ng == 1 else ["list", "grouped"]):
-                    if container == "flat":
+                for container in (["flat", "list", "grouped", "flat_yaml", "list_yaml", "grouped_yaml"] if ng == 1
+                                  else ["list", "grouped", "list_yaml", "grouped_yaml"]):
+                    shape = container.split("_")[0]
+                    if shape == "flat":
                         conf = dict(groups[0]); conf["seed"] = 1; kind = "0 %d %s" % (len(conf), " ".join(conf.keys()))
-                    elif container == "list":
+                    elif shape == "list":
                         conf = [dict(g) for g in groups]
                         kind = "1 %d %s" % (len(groups), " ".join("%d %s" % (len(g), " ".join(g.keys())) for g in groups))
                     else:
@@ -152,9 +462,17 @@ def run(ctx):
                     any_missing = any(m != 0 for m in combo)
                     cs = dict(container=container, groups=groups)
                     ctx.case(key=("err", container, combo), nontrivial=True); ctx.branch("missing_keys")
+                    supplied = conf
+                    if container.endswith("_yaml"):
+                        ctx.branch("missing_keys.yaml")
+                        ytext = yaml.safe_dump(conf, sort_keys=False)
+                        cs["yaml"] = ytext
+                        supplied = io.StringIO(ytext)
+                    if os.path.exists(err_out):
+                        os.remove(err_out)
                     err = None; res = None
                     try:
-                        res = mk.make_release(conf)
+                        res = mk.make_release(supplied, err_out)
                     except ValueError as e:
                         err = str(e)
                     except Exception as e:
@@ -162,20 +480,70 @@ def run(ctx):
                     if any_missing:
                         ctx.oracle(err is not None and not err.startswith("OTHER"), "C18.invalid.not_rejected",
                                    SITE + "::load_config", "missing keys but result %r / error %r" % (None if res is None else "table", err), cs)
+                        ctx.oracle(not os.path.exists(err_out), "C18.invalid.partial_file", SITE + "::make_release",
+                                   "missing keys (error %r) but an output file was written" % (err,), cs)
                         if err and not err.startswith("OTHER"):
-                            for gi, m in enumerate(combo):
-                                for i, k in enumerate(keys):
-                                    if (m >> i) & 1:
-                                        ctx.oracle(k in err, "C18.invalid.error_does_not_name_key", SITE + "::load_config",
-                                                   "group %d lacks %s, error is %r" % (gi, k, err), cs)
-                            if ng > 1:
-                                for gi, m in enumerate(combo):
-                                    ctx.oracle((("in group %d" % gi) in err) == (m != 0), "C18.invalid.error_group_index", SITE + "::load_config",
-                                               "error %r, missing masks %r" % (err, combo), cs)
+                            judge_missing(ctx, err, combo, keys, SITE + "::load_config", cs)
+                        # through the command line: failing exit status, no output file, the error names the keys
+                        if shape == "grouped" and container.endswith("_yaml") and n_cli_err < ctx.n(1, 8) and ctx.rng.random() < 0.2:
+                            n_cli_err += 1; ctx.branch("cli.invalid")
+                            p_in = os.path.join(tmp, "clierr%d.yaml" % n_cli_err); p_out = os.path.join(tmp, "clierr%d.rls" % n_cli_err)
+                            with open(p_in, "w", encoding="utf8") as f:
+                                f.write(ytext)
+
+                            def then(rc, out, serr, p_out=p_out, combo=combo, cs=dict(cs, via="command line")):
+                                ctx.oracle(rc != 0, "C18.invalid.cli_exit_status", MAIN,
+                                           "missing keys, but the command line exits with status 0 (%s)" % serr[-200:], cs)
+                                ctx.oracle(not os.path.exists(p_out), "C18.invalid.partial_file", MAIN,
+                                           "missing keys, but the command line wrote an output file", cs)
+                                if rc != 0:
+                                    msg = serr.split("ValueError: ")[-1]
+                                    judge_missing(ctx, msg, combo, keys, MAIN, cs)
+                            cli.launch([sys.executable, "-m", "ladim_plugins.release", p_in, p_out], then)
                     else:
                         ctx.oracle(err is None, "C18.valid.rejected", SITE + "::load_config", "complete configuration rejected: %r" % err, cs)
                     if drv.available:
                         pend.append((drv.ask("table.validate", kind), err, combo, cs))
+        cli.drain()
+        # ---- other invalid configurations (statement: rejected with an error, no partial table): a malformed date in
+        # one of the groups, a document that is no mapping / list, malformed YAML.  Not in the model's driver protocol.
+        def rejected(supplied_factory, pred, what, cs):
+            ctx.case(key=("invalid", what, repr(cs)), nontrivial=True)
+            if os.path.exists(err_out):
+                os.remove(err_out)
+            err = None; res = None
+            try:
+                res = mk.make_release(supplied_factory(), err_out)
+            except (ValueError, TypeError) as e:
+                err = repr(e)
+            ctx.oracle(err is not None, pred, SITE + "::load_config", "%s, but a table of %s rows is returned" % (what, "?" if res is None else nrows_of(res)), cs)
+            ctx.oracle(not os.path.exists(err_out), "C18.invalid.partial_file", SITE + "::make_release", "%s (error %r) but an output file was written" % (what, err), cs)
+        for ng in (1, 2, 3):
+            for bad_at in range(ng):
+                for bad in ("nodate", ["2000-01-01", "notadate"], ["2000-13-01", "2000-01-02"], "2000-01-32"):
+                    groups = [dict(base, depth=1) for _ in range(ng)]
+                    groups[bad_at]["date"] = bad
+                    for container in (["flat", "list", "grouped"] if ng == 1 else ["list", "grouped"]):
+                        if container == "flat":
+                            conf = dict(groups[0], seed=1)
+                        elif container == "list":
+                            conf = groups
+                        else:
+                            conf = dict(seed=1, groups=groups)
+                        cs = dict(container=container, config=conf)
+                        ctx.branch("invalid.bad_date")
+                        rejected(lambda: copy.deepcopy(conf), "C18.invalid.bad_date_not_rejected", "malformed date in group %d" % bad_at, cs)
+                        ytext = yaml.safe_dump(conf, sort_keys=False)
+                        rejected(lambda: io.StringIO(ytext), "C18.invalid.bad_date_not_rejected", "malformed date in group %d (YAML stream)" % bad_at, dict(cs, yaml=ytext))
+        for doc in (123, None, 4.5, True):
+            ctx.branch("invalid.non_mapping")
+            rejected(lambda: doc, "C18.invalid.non_mapping_not_rejected", "the configuration is %r" % (doc,), dict(config=repr(doc)))
+        for ytext in ("", "42", "just text", "null", "# only a comment\n"):
+            ctx.branch("invalid.non_mapping")
+            rejected(lambda: io.StringIO(ytext), "C18.invalid.non_mapping_not_rejected", "the YAML document %r is no mapping or list" % ytext, dict(yaml=ytext))
+        for ytext in ("*unknown_tag", "num: [1, 2", "a: b: c", "num: 3\n\tdate: 2000-01-01", "{num: 3, date: 2000-01-01, location: [5, 60]"):
+            ctx.branch("invalid.bad_yaml")
+            rejected(lambda: io.StringIO(ytext), "C18.invalid.bad_yaml_not_rejected", "malformed YAML %r" % ytext, dict(yaml=ytext))
         if drv.available:
             rep = drv.run()
             for j, err, combo, cs in pend:
@@ -199,6 +567,11 @@ def run(ctx):
             finally:
                 ctx.tier = saved
     finally:
+        for p, _ in cli.pending:
+            try:
+                p.kill()
+            except Exception:
+                pass
         shutil.rmtree(tmp, ignore_errors=True)
 
 
